@@ -1051,7 +1051,7 @@ def handler (fn : String) : Option Handler :=
         | some (m, ops, pts) =>
           if o = ["nobuild"] then "skip nobuild" else
           if o.length != pts.length then "fail unparsable-output" else
-          -- the histories keep the surface and its orientation, except `sc` (orientation-preserving scales only), which is
+          -- the histories keep the surface and its orientation; `sc` (any sign pattern: `scaled` rewinds ORIENTED meshes) is
           -- applied here in exact arithmetic
           let scaleOf (p : V3 Rat) : V3 Rat := ops.foldl (fun p op => match op with
             | .sc xs => (⟨p.x * q (xs.getD 0 1), p.y * q (xs.getD 1 1), p.z * q (xs.getD 2 1)⟩ : V3 Rat)
